@@ -96,7 +96,8 @@ def check_rollback(eng, w, d, pre, prev_created, sig):
         if q[0] == 'F':
             eng.check('C02.new-file-left', False, sig + (w.rel(p),), info={'path': w.rel(p)})
         else:
-            eng.check('C02.new-dir-left', p in prev_created, sig + (w.rel(p),), info={'path': w.rel(p)})
+            ok = any(c == p or c.startswith(p + '/') for c in prev_created)
+            eng.check('C02.new-dir-left', ok, sig + (w.rel(p),), info={'path': w.rel(p)})
     eng.check('C02.temp-dir-left', not w.tmp_leftovers(), sig)
 
 
